@@ -559,6 +559,10 @@ func ruleEval(c *Ctx, mode string) *RuleResult {
 		}
 		for _, l := range logicAtoms {
 			for _, cond := range conds {
+				if pj.filter && cond != AObjN && l != AArrMix && l != ATSliceN {
+					// the condition's kind matters for arrays; every other left-hand side is run once
+					continue
+				}
 				nruns++
 				x := newX(fmt.Sprintf("%s with left-hand side %s", pj.nt, l))
 				seq := []Atoms{l, x.resUni}
@@ -691,3 +695,220 @@ func ruleEval(c *Ctx, mode string) *RuleResult {
 }
 
 func (p prov) String() string { return string(p) }
+
+// K-ALLELEMS: the evaluator's loops visit every child / element.
+func init() {
+	register("K-ALLELEMS", ruleAllElems)
+	register("S-BINARY", ruleBinaryNodes)
+}
+
+func ruleAllElems(c *Ctx) *RuleResult {
+	r := &RuleResult{Doc: "every loop of the evaluator and its helpers over the children of a node or over the elements of a value is left only by exhaustion (i < len) or by an error return: no success return is reachable from inside the loop without passing the exhaustion edge (no data-dependent break that would skip pipe stages, members, arguments or elements)", Floor: 8}
+	for _, fn := range append([]*ssa.Function{c.A.Exec}, c.A.Helpers...) {
+		n := 0
+		for _, b := range fn.Blocks {
+			ifi := blockIf(b)
+			if ifi == nil {
+				continue
+			}
+			bo, ok := ifi.Cond.(*ssa.BinOp)
+			if !ok || bo.Op.String() != "<" {
+				continue
+			}
+			call, ok := bo.Y.(*ssa.Call)
+			if !ok {
+				continue
+			}
+			isLen := false
+			if bi, ok := call.Call.Value.(*ssa.Builtin); ok && bi.Name() == "len" {
+				isLen = true
+			}
+			if calleeName(call) == "(reflect.Value).Len" {
+				isLen = true
+			}
+			if !isLen {
+				continue
+			}
+			// a loop header: some predecessor is dominated by b
+			back := false
+			for _, p := range b.Preds {
+				if b.Dominates(p) {
+					back = true
+				}
+			}
+			if !back {
+				continue
+			}
+			n++
+			r.Instances++
+			cl := ""
+			if fn == c.A.Exec {
+				for _, in := range b.Succs[0].Instrs {
+					if k := c.A.ExecSw.clauseAt(instrPos(in)); k != nil {
+						cl = k.Name()
+						break
+					}
+				}
+			}
+			key := fmt.Sprintf("%s|%s|loop over %s#%d", fname(fn), cl, c.symStr(call.Call.Args[0], 0), n)
+			done := b.Succs[1]
+			body := b.Succs[0]
+			bad := ""
+			errSlot := errIndex(fn.Signature)
+			for bb := range reachableFrom(body, map[*ssa.BasicBlock]bool{b: true}) {
+				if ret := blockReturn(bb); ret != nil && errSlot >= 0 && isNilConst(retResults(ret)[errSlot]) {
+					bad = "a success return at " + c.pos(ret.Pos()) + " is inside the loop"
+				}
+				for _, s := range bb.Succs {
+					if s != b && !b.Dominates(s) {
+						bad = "an edge leaves the loop to " + s.String() + " without exhausting it"
+					}
+					if s == done && bb != b {
+						bad = "the loop is left (break) at " + c.pos(bb.Instrs[len(bb.Instrs)-1].Pos()) + " before all elements are visited"
+					}
+				}
+			}
+			if bad == "" {
+				r.ok(key, c.pos(bo.Pos()), fname(fn), "left only through i >= len or an error return")
+			} else {
+				r.viol(key, c.pos(bo.Pos()), fname(fn), bad)
+			}
+		}
+	}
+	return r
+}
+
+// S-BINARY: the infix handlers assemble the node the grammar says.
+func ruleBinaryNodes(c *Ctx) *RuleResult {
+	r := &RuleResult{Doc: "led: each binary operator's success return is a node of that operator's type whose children are exactly (the left node, the parsed right operand); nud/led return nothing else on success", Floor: 6}
+	fn := c.A.Led
+	sw, _ := c.switchLabels(fn, c.A.TokT)
+	want := map[string]string{"tPipe": "ASTPipe", "tOr": "ASTOrExpression", "tAnd": "ASTAndExpression", "tEQ": "ASTComparator", "tDot": "ASTSubexpression|ASTValueProjection", "tFlatten": "ASTProjection"}
+	var nodeParam *ssa.Parameter
+	for _, p := range fn.Params {
+		if c.isASTNode(p.Type()) {
+			nodeParam = p
+		}
+	}
+	for _, b := range fn.Blocks {
+		ret := blockReturn(b)
+		if ret == nil {
+			continue
+		}
+		cl := sw.clauseAt(instrPos(ret))
+		if cl == nil || len(cl.Labels) == 0 {
+			continue
+		}
+		w, ok := want[cl.Labels[0].Name]
+		if !ok {
+			continue
+		}
+		res := retResults(ret)
+		sh := c.nodeShapeOf(res[0])
+		if sh != nil && sh.Zero {
+			continue // error return
+		}
+		r.Instances++
+		key := fmt.Sprintf("led|%s|return@%s", cl.Name(), c.symStr(res[0], 0))
+		pos := c.pos(ret.Pos())
+		if sh == nil {
+			r.viol(key, pos, fname(fn), "the "+cl.Name()+" handler can return a node it did not build here ("+c.symStr(res[0], 0)+"): the operator would vanish from the tree")
+			continue
+		}
+		okType := false
+		for _, t := range strings.Split(w, "|") {
+			if sh.NodeType == t {
+				okType = true
+			}
+		}
+		// children: first is the left parameter (or, for flatten, a flatten node over it), second a parse result
+		okKids := sh.Arity == 2 && len(sh.Elems) == 2
+		if okKids {
+			okKids = c.childIs(fn, res[0], 0, nodeParam, cl.Labels[0].Name == "tFlatten") && c.childIsParseResult(fn, res[0], 1)
+		}
+		if okType && okKids {
+			r.ok(key, pos, fname(fn), sh.String()+" with children (left, parsed right operand)")
+		} else {
+			r.viol(key, pos, fname(fn), fmt.Sprintf("the %s handler returns %s (type ok=%v, children (left, right) ok=%v)", cl.Name(), sh, okType, okKids))
+		}
+	}
+	return r
+}
+
+// childStores: the value stored as child k of the node built at the location loaded by v.
+func (c *Ctx) childValue(v ssa.Value, k int) ssa.Value {
+	ld, ok := v.(*ssa.UnOp)
+	if !ok {
+		return nil
+	}
+	evs, _ := c.prodEvents(ld.X)
+	for _, ev := range evs {
+		for _, kids := range ev.fields[fChildren] {
+			sl, ok := kids.(*ssa.Slice)
+			if !ok {
+				return nil
+			}
+			al, ok := sl.X.(*ssa.Alloc)
+			if !ok {
+				return nil
+			}
+			for _, rf := range *al.Referrers() {
+				ia, ok := rf.(*ssa.IndexAddr)
+				if !ok {
+					continue
+				}
+				if kk, ok := constInt(ia.Index); !ok || int(kk) != k {
+					continue
+				}
+				for _, rr := range *ia.Referrers() {
+					if st, ok := rr.(*ssa.Store); ok && st.Addr == ia {
+						return st.Val
+					}
+				}
+			}
+		}
+	}
+	return nil
+}
+
+func (c *Ctx) childIs(fn *ssa.Function, node ssa.Value, k int, param *ssa.Parameter, viaFlatten bool) bool {
+	v := c.childValue(node, k)
+	if v == nil {
+		return false
+	}
+	isParam := func(x ssa.Value) bool {
+		if x == param {
+			return true
+		}
+		if ld, ok := x.(*ssa.UnOp); ok {
+			if al, ok := ld.X.(*ssa.Alloc); ok && paramSpill(param) == al {
+				return true
+			}
+		}
+		return false
+	}
+	if isParam(v) {
+		return !viaFlatten
+	}
+	if viaFlatten {
+		if sh := c.nodeShapeOf(v); sh != nil && sh.NodeType == "ASTFlatten" {
+			inner := c.childValue(v, 0)
+			return inner != nil && isParam(inner)
+		}
+	}
+	return false
+}
+
+func (c *Ctx) childIsParseResult(fn *ssa.Function, node ssa.Value, k int) bool {
+	v := c.childValue(node, k)
+	ex, ok := v.(*ssa.Extract)
+	if !ok || ex.Index != 0 {
+		return false
+	}
+	call, ok := ex.Tuple.(*ssa.Call)
+	if !ok {
+		return false
+	}
+	sc := staticCallee(call)
+	return sc == c.A.ParseExpr || sc == c.A.ParseDotRHS || sc == c.A.ParseProjRHS
+}
